@@ -350,10 +350,12 @@ def fit_lattice(tier, rng, focus):
             cfg["nsamp"] = rng.choice([8, 10])
         if mode != "edelta" and rng.random() < (.5 if focus == "C11" else .25):
             cfg["pipe"] = "P0"
-        if mode != "edelta" and rng.random() < (.3 if focus == "C04" else .1):
+        if mode != "edelta" and rng.random() < (.3 if focus in ("C04", "C05")
+                                                else .1):
             # something else happens between the fit and the inspection
             cfg["post"] = rng.choice(["scan", "estimate", "rate", "refit",
-                                      "initparams", "ancillaries"])
+                                      "initparams", "ancillaries", "scan2",
+                                      "scan2"])
         if rng.random() < .1:
             cfg["method"] = "nelder"
         if mode == "abs" and rng.random() < .3:
